@@ -808,6 +808,14 @@ def r10_exactly_once(ctx, res):
         raise AnalysisError(f'only {n} executemany call effects found in wn/_add.py')
 
 
+def r11_reader_text(ctx, res):
+    """what add() stores is what the reader built: element text (definitions, examples, ...) is accumulated over all
+    character-data callbacks, the handlers are installed, and whitespace is normalised only as WN-LMF prescribes - the
+    reader half of "no character of any stored string is altered" (analysis shared with C02-R2)."""
+    from .c02 import reader_text_checks
+    reader_text_checks(ctx, res)
+
+
 RULES = [
     ('C01-R1', r1_compile_arity, 150),
     ('C01-R2', r2_bindings, 200),
@@ -819,4 +827,5 @@ RULES = [
     ('C01-R8', r8_converters, 8),
     ('C01-R9', r9_no_shared_records, 2),
     ('C01-R10', r10_exactly_once, 20),
+    ('C01-R11', r11_reader_text, 3),
 ]
